@@ -133,6 +133,12 @@ def concrete_argv(entry, directory):
                 out += list(g['cli'])
             else:
                 out += write_graph_file(g, directory, '{}_{}'.format(zlib.crc32(entry['id'].encode()) % 1000000, i))
+        elif isinstance(tok, str) and tok.startswith('@F'):
+            i = int(tok[2:])
+            path = os.path.join(directory, 'f{}_{}.cnf'.format(zlib.crc32(entry['id'].encode()) % 1000000, i))
+            with open(path, 'w') as f:
+                f.write(entry['files'][i])
+            out.append(path)
         else:
             out.append(str(tok))
     return out
@@ -327,6 +333,12 @@ def small_entries(thorough=False):
     for (k, n, m) in [(1, 1, 0), (2, 4, 3), (3, 5, 6), (3, 3, 8), (2, 6, 10), (1, 4, 4), (3, 9, 1)]:
         out.append(_E('randkcnf', 'small', ['randkcnf', k, n, m], ('RandomKCNF', [k, n, m]), nvars=n, seeded=True))
         out.append(_E('randkxor', 'small', ['randkxor', k, n, m if m <= 2 * math.comb(n, k) else 2], ('RandomKXOR', [k, n, m if m <= 2 * math.comb(n, k) else 2]), nvars=n, seeded=True))
+    # --- DIMACS input, with variables that occur in no clause
+    for ident, text, nv in [('dimacs-unused-top', 'c test\np cnf 7 2\n1 -2 0\n-4 3 0\n', 7), ('dimacs-empty', 'p cnf 0 0\n', 0),
+                            ('dimacs-emptyclause', 'p cnf 3 3\n1 2 0\n0\n-3 0\n', 3), ('dimacs-novars-used', 'p cnf 5 0\n', 5)]:
+        e = _E('dimacs', 'small', ['dimacs', '@F0'], None, nvars=nv, ident=ident)
+        e['files'] = [text]
+        out.append(e)
     seen = set()
     uniq = []
     for e in out:
